@@ -682,8 +682,17 @@ func genRawP(g *vlib.Rng, name string, w *WCfg, plans []coinPlan) *Case {
 			tin.ScriptSig = append([]byte{byte(3)}, g.Bytes(3)...)
 		}
 		tx.TxIn = append(tx.TxIn, tin)
-		if g.Chance(1, 8) && !ownedBy(pubs, c.W.bech32Mode(), sc) {
-			wits = append(wits, [][]byte{g.Bytes(10)})
+		// witness data already present: on a foreign input (left alone), or on an owned input of a witness type, where the
+		// wallet REPLACES the stack (a partly signed segwit transaction fed back: outside hwit of signatures_verify, so
+		// judged by VerifyTxScript and the byte tie only). Not on an owned P2PKH input: the wallet leaves tx.SegWit[i]
+		// alone there and the left-over witness (WITNESS_UNEXPECTED) is the supplier's error, like a left-over scriptSig
+		// on a native witness input.
+		if k := scriptKind(sc); g.Chance(1, 8) && (!ownedBy(pubs, c.W.bech32Mode(), sc) || k == "p2wpkh" || k == "p2tr" || k == "p2sh") {
+			if ownedBy(pubs, c.W.bech32Mode(), sc) {
+				wits = append(wits, [][]byte{g.Bytes(71), g.Bytes(33)})
+			} else {
+				wits = append(wits, [][]byte{g.Bytes(10)})
+			}
 			anyWit = true
 		} else {
 			wits = append(wits, nil)
@@ -965,6 +974,52 @@ func corpus() []*Case {
 		}
 		op.subfee, op.msgLen, op.change, op.useBatch, op.useAll, op.rfc, op.apply, op.mode, op.ndest = 0, 0, 0, 0, 1, 0, 1, 3, 1
 		cs = append(cs, genSend(g, "corpus/pubkey-parity", op))
+	}
+	// damaged balance folder (tx_from_balance: txid check of balance files - an anchored mechanism): exit 1, nothing written
+	for k, how := range []string{"flip", "truncate", "trailing", "missing"} {
+		op := base()
+		op.mode = 3
+		c := genSend(g, "corpus/balance-"+how, op)
+		c.Corrupt, c.CorruptIdx = how, k%len(c.Funding)
+		cs = append(cs, c)
+	}
+	// a '#' comment line WITH '=' in the batch file is skipped: the request stays well formed, the full predicate applies
+	{
+		op := base()
+		op.mode, op.useBatch, op.ndest = 3, 1, 2
+		c := genSend(g, "corpus/batch-comment-line", op)
+		c.BatchRaw = []string{"#c=1", " # note = 5"}
+		cs = append(cs, c)
+	}
+	// CompactSize boundaries of the serialisation: 253+ inputs (-useallinputs), 253+ outputs (-batch), vout 1000
+	{
+		op := base()
+		op.plans = nil
+		for k := 0; k < 260; k++ {
+			op.plans = append(op.plans, coinPlan{ownScript(ownKinds[k%4], pubs[k%4]), uint64(3000 + k)})
+		}
+		op.useAll, op.mode, op.ndest, op.fee = 1, 3, 1, 1000
+		cs = append(cs, genSend(g, "corpus/many-inputs-260", op))
+		op = base()
+		op.mode, op.useBatch, op.ndest, op.fee = 4, 1, 260, 1000
+		cs = append(cs, genSend(g, "corpus/many-outputs-260", op))
+		op = base()
+		op.mode = 3
+		c := genSend(g, "corpus/vout-1000", op)
+		tx := new(btc.Tx)
+		tx.Version = 2
+		tin := &btc.TxIn{Sequence: 0xffffffff}
+		copy(tin.Input.Hash[:], make32(0x77))
+		tx.TxIn = []*btc.TxIn{tin}
+		for k := 0; k <= 1000; k++ {
+			tx.TxOut = append(tx.TxOut, &btc.TxOut{Value: 700000, Pk_script: ownScript("p2wpkh", pubs[k%4])})
+		}
+		raw := tx.Serialize()
+		t2, _ := btc.NewTx(raw)
+		t2.SetHash(raw)
+		c.Funding = append([]string{hex.EncodeToString(raw)}, c.Funding...)
+		c.Unspent = append([]Unspent{{Txid: t2.Hash.String(), Vout: 1000, Value: 700000, Script: hex.EncodeToString(tx.TxOut[1000].Pk_script)}}, c.Unspent...)
+		cs = append(cs, c)
 	}
 	// malformed
 	for k := 0; k < 24; k++ {
